@@ -1,0 +1,36 @@
+//go:build verif
+
+// Package verifhook provides named instrumentation points for the verification
+// harness.  With the `verif` build tag, a registered handler is consulted at
+// every point; it may count the hit, block (to force an interleaving), return
+// an error (fault injection), or terminate the process (crash injection).
+package verifhook
+
+import "sync"
+
+// Handler is called at every instrumented point.  A non-nil result is returned
+// to the instrumented code as the error of the step.
+type Handler func(name string, detail []string) error
+
+var (
+	mu      sync.RWMutex
+	handler Handler
+)
+
+// Set installs (or, with nil, removes) the process-wide handler.
+func Set(h Handler) {
+	mu.Lock()
+	handler = h
+	mu.Unlock()
+}
+
+// Point marks an instrumented step.
+func Point(name string, detail ...string) error {
+	mu.RLock()
+	h := handler
+	mu.RUnlock()
+	if h == nil {
+		return nil
+	}
+	return h(name, detail)
+}
